@@ -75,6 +75,13 @@ def real_explicit(integ, o, stmts_per_sink):
                            frame_size=c["fs"], flow=(None if c["flow"] == "inferred" else c["flow"]), preset=(8, 4, 2),
                            gen=(integ == "generic"), star=(integ == "generic"))
     stream = impl.make_stream(cfg)
+    # Tier 2: the flow the Stream ended up with is the one PyConfig.Construct predicts (class, logical type, frame size)
+    kinds = {"ManualFrameFlow": "manual", "BoundedFrameFlow": "bounded", "FlatTriplesFrameFlow": "flat_triples", "FlatQuadsFrameFlow": "flat_quads",
+             "GraphsFrameFlow": "graphs", "DatasetsFrameFlow": "datasets"}
+    real = (kinds.get(type(stream.flow).__name__), int(stream.flow.logical_type), getattr(stream.flow, "frame_size", None))
+    want = (o["kind"], o["lt"], o["fsz"] if o["kind"] in ("bounded", "flat_triples", "flat_quads") else None)
+    if real != want:
+        FLOW_DRIFT.append(f"{c}: PyConfig predicts flow {want}, the Stream has {real}")
     mod = __import__(f"pyjelly.integrations.{integ}.serialize", fromlist=["stream_frames"])
     out = io.BytesIO()
     n = 0
@@ -84,6 +91,9 @@ def real_explicit(integ, o, stmts_per_sink):
             (impl.write_delimited if c["delimited"] else impl.write_single)(fr, out)
             n += 1
     return out.getvalue(), c["delimited"], len(stream.flow), n
+
+
+FLOW_DRIFT: list = []
 
 
 def guessed_class(lt: int, quads: bool) -> str:
@@ -172,6 +182,10 @@ def main(tier: str) -> int:
              "frame_size": 250, "sinks": 1}, {"statements": items}, False,
             lambda items=items: (impl.serialize(impl.default_cfg(entry="sink_serialize"), items), True, None, None), items, "seq")
 
+    for d_ in FLOW_DRIFT[:3]:
+        run.model_drift(d_)
+    if len(FLOW_DRIFT) > 3:
+        run.model_drift(f"... {len(FLOW_DRIFT) - 3} further flow predictions differ")
     verdicts = tlc.judge(traces)
     jst = verdicts.pop("__stats__")
     by_case = {t["id"]: verdicts[t["id"]] for t in traces}
